@@ -261,6 +261,10 @@ def _expr(draw, model, env, depth):
             e, t = draw(_expr(model, env, depth - 1))
             items.append((f"k{i}", e, t))
         i = draw(st.integers(0, n - 1))
+        if draw(st.integers(0, 3)) == 0:
+            # an entry without a constant key (a ** mapping, a computed key) IN FRONT of the field that is read by attribute
+            pre, _ = draw(_expr(model, env, 0))
+            return ["fld", ["dictx", draw(st.sampled_from(["**", "computed"])), pre, [[k, e] for k, e, _ in items]], items[i][0], "attr"], items[i][2]
         return ["fld", ["dict", [[k, e] for k, e, _ in items]], items[i][0], draw(st.sampled_from(["attr", "key"]))], items[i][2]
     if c == 12:  # dataclass / record field access
         recs = [(n, t) for n, t in env if t[0] == "rec" or t == ["c", "Info", []]]
@@ -440,6 +444,9 @@ def render(e):
         return f"({render(e[2])} {e[1]} {render(e[3])})"
     if k == "dict":
         return "{" + ", ".join(f"'{kk}': {render(v)}" for kk, v in e[1]) + "}"
+    if k == "dictx":
+        first = f"**{{'zz': {render(e[2])}}}" if e[1] == "**" else f"('z' + 'z'): {render(e[2])}"
+        return "{" + ", ".join([first] + [f"'{kk}': {render(v)}" for kk, v in e[3]]) + "}"
     if k == "fld":
         return f"{_pr(render(e[1]))}.{e[2]}" if e[3] == "attr" else f"{_pr(render(e[1]))}['{e[2]}']"
     raise ValueError(k)
@@ -621,6 +628,8 @@ def expected_types(case):
             return ["float"] if (ta == ["float"] or tb == ["float"] or e[1] == "/") else ["int"]
         if k == "dict":
             return ["rec", [[kk, ty(v, env)] for kk, v in e[1]]]
+        if k == "dictx":
+            return ["rec", [[kk, ty(v, env)] for kk, v in e[3]]]
         if k == "fld":
             t = ty(e[1], env)
             fields = INFO_FIELDS if t == ["c", "Info", []] else t[1]
